@@ -82,6 +82,28 @@ package object
 //@   pureeffect
 //@   defines err == nil ==> sigOK(req)
 
+// "No rule matched" on the request alone is not a verdict when the table has rules on object
+// headers: GET and HEAD then remember (recheckEACL) that the extended ACL must be evaluated
+// again on the object's header before anything of the object is sent. The storage handler is
+// called only if the request-time evaluation allowed the request outright or that re-check
+// is scheduled - whatever else the request asks for (payload_only, raw, ...).
+//@ ghost pred eaclAllowedOnRequest() bool
+//@ callrule c29_request_time_eacl_verdict in (*Server).Get, (*Server).HeadBuffered
+//@   property C29 C28
+//@   callee (acl.ACLChecker).CheckEACL
+//@   pureeffect
+//@   defines err == nil ==> eaclAllowedOnRequest()
+// GET hands the decision to the response stream it builds for the storage handler ...
+//@ callrule c29_get_stream_carries_the_pending_recheck in (*Server).Get
+//@   property C29 C28
+//@   callee object.convertGetPrm
+//@   requires [allowed_outright_or_header_recheck_scheduled] eaclAllowedOnRequest() || a3.recheckEACL
+// ... HEAD keeps it in a local and evaluates the header it gets back.
+//@ callrule c29_head_keeps_the_pending_recheck in (*Server).HeadBuffered
+//@   property C29 C28
+//@   callee (object.Handlers).Head
+//@   requires [allowed_outright_or_header_recheck_scheduled] eaclAllowedOnRequest() || recheckEACL
+
 // Proxied GET (the object is streamed from another container node): when the request
 // alone could not decide the extended ACL (recheckEACL), the header message of the remote
 // stream is where it is evaluated. The sync.Once body that handles that message may end
